@@ -2,7 +2,7 @@ From Coq Require Import ZArith NArith List Bool.
 From PSO Require Import Raft.Types Raft.Node Raft.Net Raft.Obs.
 From PSO Require Import Raft.ProofsReadonlyFrames Raft.ProofsReadonlyB Raft.ProofsReadonlyFinal.
 From PSO Require Import Raft.ProofsFallbackA Raft.ProofsFallbackB Raft.ProofsFallbackC Raft.ProofsFallbackFinal.
-From PSO Require Import Raft.ProofsFallbackSlotsGlobal.
+From PSO Require Import Raft.ProofsFallbackSlotsGlobal Raft.ProofsFallbackSuccess Raft.ProofsFallbackSuccessGlobal.
 Import ListNotations.
 Open Scope N_scope.
 
@@ -99,6 +99,32 @@ Theorem C20_no_commit_when_cut_partial : forall c g0 L n0 K evs g,
             (role n = LEADER -> forall x, In x (others n0) -> aget x (match_idx n) = aget x (match_idx n0)).
 Proof. exact C20_no_commit_when_cut_partial_final. Qed.
 Print Assumptions C20_no_commit_when_cut_partial.
+
+(* the commit bound from a reachable state: need_load = false and "members are voters" are invariants *)
+Theorem C20_no_commit_when_cut_reachable : forall c evs0 g0 L n0 K evs g,
+  (0 <= period c)%Z ->
+  Forall slot_valid evs0 -> run_trace c ginit evs0 = Some g0 ->
+  aget L (nodes g0) = Some n0 -> role n0 = LEADER -> others n0 <> [] ->
+  commit n0 <= K -> (forall j, K < j -> majority (match_count j n0) n0 = false) ->
+  steps_sat (cut_quiet L) c g0 evs -> run_trace c g0 evs = Some g ->
+  exists n, aget L (nodes g) = Some n /\ commit n <= K /\
+            (role n = LEADER -> forall x, In x (others n0) -> aget x (match_idx n) = aget x (match_idx n0)).
+Proof. exact C20_no_commit_when_cut_reachable_thm. Qed.
+Print Assumptions C20_no_commit_when_cut_reachable.
+
+(* while L is cut off, every SUCCESS it fires goes to a callback that L had registered in wait_commit, at
+   the start of that step, under an index <= K (K: beyond it the frozen matchIndex has no majority): no
+   callback waiting for an index > K is acknowledged *)
+Theorem C20_no_success_when_cut : forall c evs0 g0 L n0 K evs,
+  (0 <= period c)%Z ->
+  Forall slot_valid evs0 -> run_trace c ginit evs0 = Some g0 ->
+  aget L (nodes g0) = Some n0 -> role n0 = LEADER -> others n0 <> [] ->
+  commit n0 <= K -> (forall j, K < j -> majority (match_count j n0) n0 = false) ->
+  Forall ProofsCommitGlobal.ev_ok evs ->
+  steps_sat (cut_quiet L) c g0 evs ->
+  steps_sat (success_below L K) c g0 evs.
+Proof. exact C20_no_success_when_cut_thm. Qed.
+Print Assumptions C20_no_success_when_cut.
 
 Theorem C20_commit_needs_majority : forall e s,
   commit (nd (tick_leader e s)) = commit (nd s) \/
